@@ -849,6 +849,10 @@ fn judge(b: &Snap, a: &Snap, kind: &Kind, res: &Res) -> Vec<Problem> {
 			None => ps.push(Problem { kind: "output-gone", subject: subj, detail: format!("output record disappeared: {}", short(&ojson(ob))) }),
 			Some(oa) => {
 				if ojson(oa) == ojson(ob) {
+					// a re-request for the same height and fees rewrites the named candidate with identical content
+					if Some(k) == replaceable.as_ref() {
+						replaced = true;
+					}
 					continue;
 				}
 				if Some(k) == replaceable.as_ref() && is_cb_candidate(oa) {
